@@ -10,5 +10,7 @@ CONSTANTS
  DevMolsPerFile = TRUE
  DevDirKeep = FALSE
  DevElseKeep = FALSE
+ DevRootFirst = FALSE
+ DevEdgesNewOnly = FALSE
 CHECK_DEADLOCK FALSE
 INVARIANT Same
